@@ -571,7 +571,7 @@ package fsm
 // deleting a validator record also removes its unstaking / paused markers, so no marker ever refers to
 // a validator that no longer exists (end-block processing of such a marker would fail every block)
 //@ func (*StateMachine).DeleteValidator
-//@   modifies *
+//@   modifies ghost(kvHas), ghost(stakeOf), ghost(stakeSum), ghost(supStaked), ghost(supDelegated), ghost(supTotal), Supply.Staked, Supply.DelegatedOnly
 //@   ensures[unstakemarker] result == nil && validator.UnstakingHeight != 0 ==> !kvHas(unstakeKey(validator.UnstakingHeight, bytes(validator.Address)))
 //@   ensures[pausedmarker] result == nil && validator.MaxPausedHeight != 0 ==> !kvHas(pausedKey(validator.MaxPausedHeight, bytes(validator.Address)))
 // (the record is removed through the raw store Delete: that this zeroes the validator's abstract stake is ASSUMED)
